@@ -164,7 +164,8 @@ def chunks(ctx, rule="R05.5"):
     ok = asg.get("chunk_size") == ["pnt_cnt if chunk_size is None else int(chunk_size)"] and asg.get("chunk_no") == ["int(np.ceil(pnt_cnt / chunk_size))"]
     ctx.check(ok, rule, KB + "::Krige.__call__", "chunk size defaults to all points; the number of chunks is ceil(n / chunk size)", "chunk-count")
     # the slices themselves are evaluated for sample sizes: they must tile [0, n) contiguously, whatever arithmetic spells them
-    loops = [n for n in ast.walk(call) if isinstance(n, ast.For) and ast.unparse(n.iter) == "range(chunk_no)"]
+    loops = [n for n in ast.walk(call) if isinstance(n, ast.For) and any(isinstance(x, ast.Assign) and ast.unparse(x.targets[0]) == "chunk_slice" for x in n.body)
+             and isinstance(n.iter, ast.Call) and getattr(n.iter.func, "id", "") == "range"]
     tiled = None
     if len(loops) == 1:
         lp = loops[0]
@@ -175,8 +176,10 @@ def chunks(ctx, rule="R05.5"):
             for n_pts, cs in ((1, 1), (7, 3), (10, 5), (10, 10), (11, 4), (5, 8)):
                 chunk_no = int(math.ceil(n_pts / cs))
                 cover = []
-                for i in range(chunk_no):
-                    env = {"pnt_cnt": n_pts, "chunk_size": cs, "chunk_no": chunk_no, ivar: i}
+                base_env = {"pnt_cnt": n_pts, "chunk_size": cs, "chunk_no": chunk_no}
+                for i in range(*[int(fold(a, base_env)) for a in lp.iter.args]):
+                    env = dict(base_env)
+                    env[ivar] = i
                     sl = {}
                     for st in lp.body:
                         if isinstance(st, ast.Assign) and len(st.targets) == 1 and isinstance(st.targets[0], ast.Name):
@@ -206,7 +209,7 @@ def chunks(ctx, rule="R05.5"):
     else:
         ctx.check(tiled, rule, KB + "::Krige.__call__", "chunks are the contiguous, disjoint slices [i*cs, min(n, (i+1)*cs)) for i < ceil(n/cs): they cover every target exactly once (evaluated for 6 sample sizes); the tuple handed to the assembly equals the slice used for the result", "slices")
     loops = [n for n in ast.walk(call) if isinstance(n, ast.For)]
-    ok = len(loops) == 1 and ast.unparse(loops[0].iter) == "range(chunk_no)"
+    ok = len(loops) == 1
     body = [norm_stmt(s) for s in loops[0].body] if loops else []
     ok = ok and "k_vec = self._get_krige_vecs(iso_pos, chunk_slice, ext_drift, only_mean)" in body and "self._summate(field, krige_var, c_slice, k_vec, return_var)" in body
     ctx.check(ok, rule, KB + "::Krige.__call__", "each chunk builds its right-hand sides from the same chunk_slice it writes its results to", "same-slice")
